@@ -131,7 +131,7 @@ func RegexpPat(t *rapid.T, label string) string {
 }
 
 var regexpFlags = []string{"", "", "(?i)", "(?m)", "(?im)"}
-var regexpBodies = []string{"a", "^a", "^b", "a$", "b$", "^ab$", "a.", "b+", "abc$", "[0-9]+", "steve", "a|b", "^$", "x.y", `\.`, "狐", "A", "^B", "=b", "a=", "é+"}
+var regexpBodies = []string{"a", "^a", "^b", "a$", "b$", "^ab$", "a.", "b+", "abc$", "[0-9]+", "steve", "a|b", "^$", "x.y", `\.`, "狐", "A", "^B", "=b", "a=", "é+", "a{2}", "b{1,3}c", "x{0}y", "ab{2,}"}
 
 // Scalar draws a value of one of the given scalar kinds.
 func Scalar(t *rapid.T, label string, kinds ...lang.Kind) lang.Value {
